@@ -183,11 +183,67 @@ fn one<'a, 'p, P: Pattern<'p>>(r: &mut Report, kind: &'static str, s: &'a str, p
     }
 }
 
+/// Mixed-end iteration: std's `Split<char>` / `RSplit<char>` are double-ended, so every schedule of
+/// front and back steps (bit i of `mask` = step i pulls from the back) has a std answer; konst's
+/// `next` / `next_back` must give the same piece at the same position at every step, incl. the final `None`s.
+fn mixed(r: &mut Report, s: &str, c: char) {
+    let np = s.split(c).count();
+    if np > 5 {
+        return;
+    }
+    for mask in 0u32..(1 << (np + 1)) {
+        let (mut k, mut st) = (kstr::split(s, c), s.split(c));
+        let (mut rk, mut rst) = (kstr::rsplit(s, c), s.rsplit(c));
+        for i in 0..=np {
+            let back = (mask >> i) & 1 == 1;
+            let res = catch(|| {
+                let kv = if back { k.copy().next_back() } else { k.copy().next() }.map(|(x, n)| {
+                    k = n;
+                    x
+                });
+                let rkv = if back { rk.copy().next_back() } else { rk.copy().next() }.map(|(x, n)| {
+                    rk = n;
+                    x
+                });
+                (kv, rkv)
+            });
+            let (sv, rsv) = if back { (st.next_back(), rst.next_back()) } else { (st.next(), rst.next()) };
+            r.ev("split.mixed:step");
+            r.ev("rsplit.mixed:step");
+            let same = |a: Option<&str>, b: Option<&str>| match (a, b) {
+                (Some(x), Some(y)) => x == y && (x.is_empty() || off_in(s, x) == off_in(s, y)),
+                (None, None) => true,
+                _ => false,
+            };
+            match res {
+                Ok((kv, rkv)) => {
+                    for (api, g, w) in [("split.mixed", kv, sv), ("rsplit.mixed", rkv, rsv)] {
+                        if let Some(x) = g {
+                            mon_sub_str(r, api, s, x);
+                        }
+                        if !same(g, w) {
+                            r.fail(api, api, format!("kind=char input={:?} delim={:?} schedule(bit i set = step i from the back)={:#b} step {}", s, c, mask, i), format!("{:?}", g), format!("{:?}", w));
+                        }
+                    }
+                    if !same(kv, sv) || !same(rkv, rsv) {
+                        break;
+                    }
+                }
+                Err(()) => {
+                    r.fail("split.mixed", "split.mixed", format!("kind=char input={:?} delim={:?} schedule={:#b} step {}", s, c, mask, i), "<panic>".into(), format!("{:?} / {:?}", sv, rsv));
+                    break;
+                }
+            }
+        }
+    }
+}
+
 fn pair(r: &mut Report, s: &str, d: &str) {
     one(r, "&str", s, d, d);
     let mut cs = d.chars();
     if let (Some(c), None) = (cs.next(), cs.next()) {
         one(r, "char", s, c, d);
+        mixed(r, s, c);
     }
 }
 
@@ -294,6 +350,6 @@ pub fn run(cfg: &Cfg) -> (&'static str, Report, String, String) {
         "C06",
         rep,
         format!("all {} strings (<= {} chars) x {} delimiters (<= {} chars, incl. empty) over {{a,b,ñ}}, &str and char delimiter kinds; all {} strings over {{a,ñ,個,🙂}} x 7 delimiters; {} seeded random (<= 40 chars, one in eight <= 300); planted: one-byte delimiters {{',','/',' ','a'}} next to their bit-neighbours (d^1, d+1, d-1) at every offset of filler strings of 2..={} bytes", ss.len(), sl, ds.len(), dl, s4.len(), nrand, maxl),
-        "one evaluation = one iterator step (piece + remainder after the step) of split / rsplit / split().rev() / rsplit().rev() / next_back of both / split_terminator / rsplit_terminator, each iteration compared piece-by-piece (value and position) with str::split / rsplit / split_terminator (rsplit_terminator: rsplit minus a final \"\"), remainder = not-yet-split part at the position computed from the pieces yielded so far; exhausted iterators must stay exhausted; non-trivial = distinct (kind,input,delimiter) with >= 3 pieces or an empty piece among >= 2".into(),
+        "one evaluation = one iterator step (piece + remainder after the step) of split / rsplit / split().rev() / rsplit().rev() / next_back of both / split_terminator / rsplit_terminator / every front-back schedule of split and rsplit with a char delimiter (<= 6 pieces; std's Split<char> is double-ended), each iteration compared piece-by-piece (value and position) with str::split / rsplit / split_terminator (rsplit_terminator: rsplit minus a final \"\"), remainder = not-yet-split part at the position computed from the pieces yielded so far; exhausted iterators must stay exhausted; non-trivial = distinct (kind,input,delimiter) with >= 3 pieces or an empty piece among >= 2".into(),
     )
 }
